@@ -165,6 +165,18 @@ def identity_tests(base_id):
     return "\n".join(lines) + "\n"
 
 
+# (name, pytest arguments, environment, session is inactive)
+REAL_MODES = [
+    ("default", [], None, False),
+    ("report", ["--inline-snapshot=report"], None, False),
+    ("short-report", ["--inline-snapshot=short-report"], None, False),
+    ("ci-variable", [], {"CI": "true"}, True),
+    ("ci-github-with-flags-in-env", [], {"GITHUB_ACTIONS": "true", "INLINE_SNAPSHOT_DEFAULT_FLAGS": "report"}, True),
+    ("xdist-one-worker", ["-n", "1"], None, True),
+    ("xdist-two-workers", ["-n", "2"], None, True),
+]
+
+
 def run_shard(args):
     tier = args.tier
     ncases = {"quick": 60, "thorough": 2500}[tier]
@@ -229,33 +241,42 @@ def run_shard(args):
     # --inline-snapshot=disable; same for report / short-report
     from .. import session
 
-    nreal = {"quick": 1 if args.shard < 4 else 0, "thorough": 6}[tier]
+    nreal = {"quick": 1 if args.shard < len(REAL_MODES) else 0, "thorough": 7}[tier]
     for c in range(nreal):
         rng = random.Random(f"{args.seed}/{PROP}/session/{args.shard}/{c}")
         sites = [make_site(rng, i) for i in range(rng.randint(8, 14))]
         for s in sites:
             s["place"] = "loop" if s["place"] in ("comp", "helper") else s["place"]
-        src, order = program.build(sites, style="assert", tests=len(sites), per_test=1)
-        mode = [[], ["--inline-snapshot=report"], ["--inline-snapshot=short-report"], []][(args.shard + c) % 4]
+        src, order = program.build(sites, style="assert", tests=len(sites), per_test=1, header="import pytest\n" + inproc.HEADER_FULL)
+        mname, mode, menv, inactive = REAL_MODES[(args.shard + c) % len(REAL_MODES)]
+        # an xfail-marked test runs first (inline-snapshot is switched off for it and must come back as it was)
+        first = "@pytest.mark.xfail\ndef test_000_xfail_first():\n    assert 1 == snapshot(2)\n\n\n"
+        i = src.index("def test_0():")
+        src = src[:i] + first + src[i:]
+        if inactive:
+            # sessions that are disabled implicitly: snapshot(v) is v itself for every test, also after an xfail test
+            src += "\n\ndef test_zz_identity():\n    assert type(snapshot([1, 2])) is list\n    assert type(snapshot({'k': (1, 2)})) is dict\n\n\ndef test_zz_negated_comparison():\n    assert not (3 == snapshot(2))\n    assert not (3 <= snapshot(2))\n    assert 3 not in snapshot([2])\n"
         proj = session.Project({"test_a.py": src})
         try:
-            ra = session.run_session(proj, mode)
+            ra = session.run_session(proj, mode, env=menv)
             rd = session.run_session(proj, ["--inline-snapshot=disable"])
         finally:
             proj.close()
         C["real_session_pairs"] = C.get("real_session_pairs", 0) + 1
-        wit = {"files": {"test_a.py": src}, "args": mode}
-        if ra.changed:
-            out["violations"].append({"kind": "file-changed-without-flags(real session)", "detail": {"args": mode, "changed": ra.changed}, "witness": wit, "finding": None})
+        C["real_mode_" + mname] = C.get("real_mode_" + mname, 0) + 1
+        wit = {"files": {"test_a.py": src}, "args": mode, "env": menv}
+        changed_py = [k for k in ra.changed if k.endswith(".py")]  # `-new` files of outsourced data are C13's subject
+        if changed_py:
+            out["violations"].append({"kind": "file-changed-without-flags(real session)", "detail": {"args": mode, "changed": changed_py}, "witness": wit, "finding": None})
         if not ra.outcomes or set(ra.outcomes) != set(rd.outcomes):
             out["inconclusive"].append(f"real sessions produced different test sets: {len(ra.outcomes)} vs {len(rd.outcomes)}; {ra.stdout[-200:]}")
             continue
         for t in ra.outcomes:
             out["evaluations"] += 1
             C["real_test_outcomes"] = C.get("real_test_outcomes", 0) + 1
-            out["signatures"].add(f"real-session/{' '.join(mode) or 'default'}/{rd.outcomes[t]}")
+            out["signatures"].add(f"real-session/{mname}/{rd.outcomes[t]}")
             if (ra.outcomes[t] == "passed") != (rd.outcomes[t] == "passed"):
-                out["violations"].append({"kind": "test-outcome-differs-from-disabled-session", "detail": {"test": t, "active": ra.outcomes[t], "disabled": rd.outcomes[t], "args": mode}, "witness": wit, "finding": None})
+                out["violations"].append({"kind": "test-outcome-differs-from-disabled-session", "detail": {"test": t, "session": mname, "outcome": ra.outcomes[t], "disabled": rd.outcomes[t], "args": mode, "env": menv}, "witness": wit, "finding": None})
     out["signatures"] = sorted(out["signatures"])
     return out
 
